@@ -180,7 +180,7 @@ Fixpoint pv_expr (p : Z) (env : venv) (e : expr) {struct e} : outcome (bool * ex
              let '(b', tl') := t in Ok (b', AIdx x' :: tl')
       end in
   match e with
-  | ENum z k => let '(k', b) := set_val k (VField z) in Ok (b, ENum z k')
+  | ENum z k => let '(k', b) := set_val k (VField (Z.rem z p)) in Ok (b, ENum z k')
   | EVar v k =>
     match venv_get env v with
     | Some x => let '(k', b) := set_val k x in Ok (b, EVar v k')
